@@ -199,7 +199,7 @@ pub(crate) fn compare_pstr_slices(slice1: &[u8], slice2: &[u8]) -> PStrSegmentCm
                 )
             } else {
                 PStrSegmentCmpResult::Continue(
-                    PStrContinuable::TailIndex(tail1_idx + cell_index!(pos)),
+                    PStrContinuable::TailIndex(tail1_idx + cell_index!(pos + offset_pos_1)),
                     PStrContinuable::PStrOffset(pos),
                 )
             }
